@@ -109,17 +109,20 @@ def timeBytes (csd : Nat) (s : Int) (ns : Nat) : R (List Nat) :=
       let doy := dayOfYear y mo d
       .ok (common ++ [bcd2 (doy % 100), bcd2 (doy / 100)])
 
+/-- `struct.pack("<I", csd) + struct.pack("<{}B".format(len(packet_bytes)), *packet_bytes)` -/
+def packBytes (csd : Nat) (bs : List Nat) : R Bytes :=
+  match structPack TDF1_pack_fmt0 [csd] with
+  | .error e => .error e
+  | .ok h =>
+    match structPack (TDF1_pack_fmt1 bs.length) bs with
+    | .error e => .error e
+    | .ok t => .ok (h ++ t)
+
 /-- `TimeDataFormat1.pack` -/
 def State1.pack (s : State1) : R Bytes :=
   match timeBytes s.channel_specific_data s.seconds s.nanoseconds with
   | .error e => .error e
-  | .ok bs =>
-    match structPack TDF1_pack_fmt0 [s.channel_specific_data] with
-    | .error e => .error e
-    | .ok h =>
-      match structPack (TDF1_pack_fmt1 bs.length) bs with
-      | .error e => .error e
-      | .ok t => .ok (h ++ t)
+  | .ok bs => packBytes s.channel_specific_data bs
 
 /-- `TimeDataFormat1.unpack` -/
 def State1.unpack (st : State1) (buf : Bytes) : State1 × R Unit :=
